@@ -9,11 +9,38 @@ Open Scope nat_scope.
 Arguments compile_prog : simpl never.
 Arguments compile_fun : simpl never.
 
+Lemma binary_notin : forall x y w,
+  binary NotIn x y w =
+  match binary In x y w with
+  | POk (v, w') => POk (VBool (negb (truth v w')), w')
+  | PErr => PErr
+  | PUnsup t => PUnsup t
+  end.
+Proof.
+  intros x y w. unfold binary.
+  destruct y; try reflexivity.
+  - destruct x; reflexivity.
+  - destruct (list_mem w x vs) as [b| |]; reflexivity.
+  - destruct (get_obj w a) as [[vs k|kvs k]|]; try reflexivity.
+    + destruct (list_mem w x vs) as [b| |]; reflexivity.
+    + unfold need_hashable. destruct (hashable x) as [[|]| |]; try reflexivity.
+      destruct (dict_find w x kvs) as [[v|]| |]; reflexivity.
+  - destruct x; reflexivity.
+Qed.
+
+Lemma unpack_length : forall n v w vs, unpack n v w = POk vs -> length vs = n.
+Proof.
+  intros n v w vs H. unfold unpack in H.
+  destruct v; try discriminate;
+    (destruct (elements _ w) as [l| |]; simpl in H; try discriminate;
+     destruct (Nat.eqb (length l) n) eqn:E; try discriminate; inversion H; subst; apply Nat.eqb_eq; auto).
+Qed.
+
 Lemma truth_bool : forall b w, truth (VBool b) w = b.
 Proof. reflexivity. Qed.
 
 Global Opaque binary unary truth index_get index_set iterate release getattr call_builtin bind_args
-       inplace_add inplace_pipe unpack alloc_list alloc_dict universal str_in index_get_opt.
+       inplace_add inplace_pipe unpack alloc_list alloc_dict universal str_in index_get_opt slice_op.
 
 Lemma St_eq : forall fid C pc pc' σ σ' L I fv K g w,
   pc = pc' -> σ = σ' -> St (Fr fid C pc σ L I fv) K g w = St (Fr fid C pc' σ' L I fv) K g w.
@@ -91,13 +118,13 @@ Section Expr.
 
   Lemma name_sim : forall ρ x ps s fid C fv K pc σ I brk cont,
     wf ρ ->
-    nth_error C pc = Some (resolve brk cont pc (gen_name p (map fst ρ) x ps)) ->
+    nth_error C pc = Some (resolve brk cont pc (gen_name p (map fst ρ) [] x ps)) ->
     sim p (lookup p ρ x ps s) (St (Fr fid C pc σ (env_vals ρ) I fv) K (rg s) (rw s))
         (fun v => star cp fn (St (Fr fid C pc σ (env_vals ρ) I fv) K (rg s) (rw s))
                              (St (Fr fid C (S pc) (v :: σ) (env_vals ρ) I fv) K (rg s) (rw s))).
   Proof.
     intros ρ x ps s fid C fv K pc σ I brk cont Hwf Hf.
-    unfold lookup, gen_name in *.
+    unfold lookup, gen_name in *. cbn [assoc] in Hf.
     destruct (assoc x ρ) as [sl|] eqn:Ea.
     - destruct (assoc_local ρ x sl Hwf Ea) as [i [ov [-> [Hi Hn]]]].
       rewrite Hi in Hf. simpl in Hf.
@@ -129,6 +156,10 @@ Section Expr.
     Proof. intros; destruct o; try reflexivity; congruence. Qed.
     Lemma gen_binary : forall o ps x y, binop_eqb o NotIn = false -> ge (EBinary o ps x y) = ge x ++ ge y ++ [BINARY o ps].
     Proof. intros; destruct o; try reflexivity; discriminate. Qed.
+    Lemma gen_notin : forall ps x y, ge (EBinary NotIn ps x y) = ge x ++ ge y ++ [BINARY In ps; NOT].
+    Proof. intros. unfold gen_expr. simpl. rewrite <- app_assoc. reflexivity. Qed.
+    Lemma gc_notin : forall ps x y t f, gc (EBinary NotIn ps x y) t f = ge x ++ ge y ++ [BINARY In ps; RCJMP (1 + f); RJMP t].
+    Proof. intros. unfold gen_cond, gen_expr. simpl. rewrite <- app_assoc. reflexivity. Qed.
     Lemma gen_and : forall x y, ge (EAnd x y) = ge x ++ [DUP; RCJMP 1; RJMP (1 + length (ge y)); POP] ++ ge y.
     Proof. reflexivity. Qed.
     Lemma gen_or : forall x y, ge (EOr x y) = ge x ++ [DUP; RCJMP (1 + length (ge y)); POP] ++ ge y.
@@ -141,30 +172,35 @@ Section Expr.
     Lemma gen_index : forall x y ps, ge (EIndex x y ps) = ge x ++ ge y ++ [INDEX ps]. Proof. reflexivity. Qed.
     Lemma gen_dot : forall x name ps, ge (EDot x name ps) = ge x ++ [ATTR name ps]. Proof. reflexivity. Qed.
 
+    Definition gopt (o : option expr) : list insn := match o with Some e => ge e | None => [NONE] end.
+    Lemma gen_slice : forall x lo hi st ps, ge (ESlice x lo hi st ps) = ge x ++ gopt lo ++ gopt hi ++ gopt st ++ [SLICE ps].
+    Proof. intros. destruct lo, hi, st; reflexivity. Qed.
+
+    Lemma gen_dict : forall kvs, ge (EDict kvs) = MAKEDICT :: flat_map (entry_code p ls) kvs.
+    Proof. reflexivity. Qed.
+
     Lemma gen_call : forall fn_ args ps, ok_args args = true ->
-      ge (ECall fn_ args ps) = ge fn_ ++ flat_map ge (pos_args args) ++ [CALL 0 (length args) 0 ps].
+      ge (ECall fn_ args ps) = ge fn_ ++ flat_map (arg_code p ls) args ++ [CALL 0 (count_pos args) (count_named args) ps].
     Proof.
       intros fn_ args ps Hok. unfold gen_expr at 1. simpl. f_equal.
       assert (H : forall l, ok_args l = true ->
                 flat_map (fun a => if (match a with APos _ => true | _ => false end) || (match a with ANamed _ _ => true | _ => false end)
-                                   then match a with APos e | AStar e | AStarStar e => fst (gen p ls e) | ANamed k e => CONSTANT (VStr k) :: fst (gen p ls e) end
-                                   else []) l = flat_map ge (pos_args l)
+                                   then match a with APos e | AStar e | AStarStar e => fst (gen p ls [] e) | ANamed k e => CONSTANT (VStr k) :: fst (gen p ls [] e) end
+                                   else []) l = flat_map (arg_code p ls) l
                 /\ flat_map (fun a => if (match a with AStar _ => true | _ => false end)
-                                      then match a with APos e | AStar e | AStarStar e => fst (gen p ls e) | ANamed k e => CONSTANT (VStr k) :: fst (gen p ls e) end
+                                      then match a with APos e | AStar e | AStarStar e => fst (gen p ls [] e) | ANamed k e => CONSTANT (VStr k) :: fst (gen p ls [] e) end
                                       else []) l = []
                 /\ flat_map (fun a => if (match a with AStarStar _ => true | _ => false end)
-                                      then match a with APos e | AStar e | AStarStar e => fst (gen p ls e) | ANamed k e => CONSTANT (VStr k) :: fst (gen p ls e) end
+                                      then match a with APos e | AStar e | AStarStar e => fst (gen p ls [] e) | ANamed k e => CONSTANT (VStr k) :: fst (gen p ls [] e) end
                                       else []) l = []
                 /\ existsb (fun a => match a with AStar _ => true | _ => false end) l = false
-                /\ existsb (fun a => match a with AStarStar _ => true | _ => false end) l = false
-                /\ length (filter (fun a => match a with APos _ => true | _ => false end) l) = length l
-                /\ length (filter (fun a => match a with ANamed _ _ => true | _ => false end) l) = 0).
+                /\ existsb (fun a => match a with AStarStar _ => true | _ => false end) l = false).
       { induction l as [|a l IH]; intros Hl; simpl in *; [repeat split; auto|].
-        destruct a; try discriminate. apply andb_true_iff in Hl. destruct Hl as [_ Hl].
-        destruct (IH Hl) as [H1 [H2 [H3 [H4 [H5 [H6 H7]]]]]].
-        simpl. rewrite H1, H2, H3, H4, H5, H6, H7. repeat split; auto. }
-      destruct (H args Hok) as [H1 [H2 [H3 [H4 [H5 [H6 H7]]]]]].
-      rewrite H1, H2, H3, H4, H5, H6, H7. simpl. reflexivity.
+        apply andb_true_iff in Hl. destruct Hl as [Ha Hl].
+        destruct (IH Hl) as [H1 [H2 [H3 [H4 H5]]]].
+        destruct a; try discriminate; simpl; rewrite H1, H2, H3, H4, H5; repeat split; auto. }
+      destruct (H args Hok) as [H1 [H2 [H3 [H4 H5]]]].
+      rewrite H1, H2, H3, H4, H5. simpl. reflexivity.
     Qed.
 
     Lemma gc_not : forall ps e t f, gc (EUnary UNot ps e) t f = gc e f t. Proof. reflexivity. Qed.
@@ -185,6 +221,19 @@ Section Expr.
     intros. rewrite <- rev_length. rewrite popn_app. rewrite rev_involutive, app_nil_r. reflexivity.
   Qed.
 
+  Lemma flatkw_length : forall nm, length (flatkw nm) = 2 * length nm.
+  Proof. induction nm; simpl; auto. rewrite IHnm. lia. Qed.
+  Lemma pairs_flatkw : forall nm, pairs_of (flatkw nm) = Some nm.
+  Proof. induction nm as [|[k v] nm IH]; simpl; auto. rewrite IH. reflexivity. Qed.
+  Lemma popn_flatkw : forall nm σ, popn (2 * length nm) (rev (flatkw nm) ++ σ) [] = Some (flatkw nm, σ).
+  Proof. intros. rewrite <- flatkw_length. apply popn_rev. Qed.
+  Lemma named_only_no_pos : forall l, forallb is_named_arg l = true -> count_pos l = 0.
+  Proof. induction l as [|a l IH]; intros H; simpl in *; auto. apply andb_true_iff in H. destruct H as [Ha Hl].
+         destruct a; try discriminate. apply IH; auto. Qed.
+  Lemma named_only_shape : forall l, forallb is_named_arg l = true -> pos_then_named l = true.
+  Proof. induction l as [|a l IH]; intros H; simpl in *; auto. apply andb_true_iff in H. destruct H as [Ha Hl].
+         destruct a; try discriminate. auto. Qed.
+
   Lemma evals_length : forall n stk ρ es s vs s', evals p n stk ρ es s = Ok (vs, s') -> length vs = length es.
   Proof.
     induction n; intros stk ρ es s vs s' H; simpl in H; [discriminate|].
@@ -194,14 +243,53 @@ Section Expr.
     inversion H; subst. simpl. f_equal. eapply IHn; eauto.
   Qed.
 
-  Lemma E_step : forall n, E p n -> Cn p n -> Ls p n -> Ar p n -> Ca p n -> E p (S n).
+  Lemma En_step : forall n, E p n -> En p n -> En p (S n).
   Proof.
-    intros n IHE IHC IHL IHA IHCa.
+    intros n IHE IHN.
+    unfold En; intros stk ρ d kvs s fid C fv K pc σ I brk cont Hok Hwf Hstk Hcode.
+    destruct kvs as [|[[k v] cps] kvs]; simpl eval_entries.
+    - cbn [sim]. fin.
+    - simpl in Hok. apply andb_true_iff in Hok. destruct Hok as [Hkv Hr].
+      unfold ok_entry in Hkv. cbn [fst snd] in Hkv. apply andb_true_iff in Hkv. destruct Hkv as [Hk Hv].
+      simpl in Hcode. unfold entry_code at 1 in Hcode. cbn [fst snd] in Hcode.
+      change (DUP :: gen_expr p (map fst ρ) k ++ gen_expr p (map fst ρ) v ++ [SETDICTUNIQ cps])
+        with ([DUP] ++ gen_expr p (map fst ρ) k ++ gen_expr p (map fst ρ) v ++ [SETDICTUNIQ cps]) in Hcode.
+      rewrite <- !app_assoc in Hcode. pcode_split.
+      codeof k ltac:(fun Hc => pose proof (IHE stk ρ k s fid C fv K _ (d :: d :: σ) I brk cont Hk Hwf Hstk Hc) as IH1).
+      assert (Hpre : star cp fn (S1 fid C fv K pc (d :: σ) ρ I s) (S1 fid C fv K (pc + 1) (d :: d :: σ) ρ I s)).
+      { vstep. fin. }
+      destruct (eval p n stk ρ k s) as [[vk s1]| | |]; cbn [sim fst snd] in *; auto;
+        try (hstar Hpre; hchain IH1).
+      codeof v ltac:(fun Hc => pose proof (IHE stk ρ v s1 fid C fv K _ (vk :: d :: d :: σ) I brk cont Hv Hwf Hstk Hc) as IH2).
+      destruct (eval p n stk ρ v s1) as [[vv s2]| | |]; cbn [sim fst snd] in *; auto;
+        try (hstar Hpre; hstar IH1; hchain IH2).
+      destruct (index_get_opt d vk (rw s2)) as [present| |t] eqn:Eg; cbn [lift sim fst snd].
+      2: { hstar Hpre. hstar IH1. hstar IH2. vstop1 Eg. }
+      2: { hstar Hpre. hstar IH1. hstar IH2. vstop1 Eg. }
+      destruct present.
+      { cbn [sim]. hstar Hpre. hstar IH1. hstar IH2. vstop1 Eg. }
+      destruct (index_set d vk vv (rw s2)) as [w'| |t] eqn:Es; cbn [lift sim fst snd].
+      2: { hstar Hpre. hstar IH1. hstar IH2. with_fetch ltac:(fun H => apply halts_now; rewrite (step_lit _ _ _ _ _ _ _ _ _ _ _ _ _ H); simpl; rewrite Eg; simpl; rewrite Es; reflexivity). }
+      2: { hstar Hpre. hstar IH1. hstar IH2. with_fetch ltac:(fun H => apply halts_now; rewrite (step_lit _ _ _ _ _ _ _ _ _ _ _ _ _ H); simpl; rewrite Eg; simpl; rewrite Es; reflexivity). }
+      match goal with Hc : pcode_at C ?q (flat_map _ kvs) _ _ |- _ =>
+        pose proof (IHN stk ρ d kvs (with_w s2 w') fid C fv K q σ I brk cont Hr Hwf Hstk Hc) as IH3 end.
+      assert (Hpre2 : star cp fn (S1 fid C fv K pc (d :: σ) ρ I s)
+                        (S1 fid C fv K (pc + length (entry_code p (map fst ρ) (k, v, cps))) (d :: σ) ρ I (with_w s2 w'))).
+      { chain Hpre. chain IH1. chain IH2. vstep2 Eg Es. unfold entry_code. cbn [fst snd]. fin. }
+      destruct (eval_entries p n stk ρ d kvs (with_w s2 w')) as [s3| | |]; cbn [sim fst snd] in *; auto.
+      + chain Hpre2. chain IH3. unfold entry_code. cbn [fst snd]. fin.
+      + hstar Hpre2. hchain IH3.
+      + hstar Hpre2. hchain IH3.
+  Qed.
+
+  Lemma E_step : forall n, E p n -> Cn p n -> Ls p n -> Ar p n -> Ca p n -> En p n -> E p (S n).
+  Proof.
+    intros n IHE IHC IHL IHA IHCa IHN.
     unfold E; intros stk ρ e s fid C fv K pc σ I brk cont Hok Hwf Hstk Hcode.
     unfold S1 in *.
     destruct e; simpl in Hok; try discriminate.
     - (* EName *)
-      simpl. change (gen_expr p (map fst ρ) (EName x p0)) with [gen_name p (map fst ρ) x p0] in *.
+      simpl. change (gen_expr p (map fst ρ) (EName x p0)) with [gen_name p (map fst ρ) [] x p0] in *.
       pcode_split.
       pose proof (name_sim ρ x p0 s fid C fv K pc σ I brk cont Hwf H) as Hn.
       destruct (lookup p ρ x p0 s); cbn [sim fst snd] in *; auto.
@@ -245,19 +333,32 @@ Section Expr.
         * hstar IHE. vstop1 Eu.
         * hstar IHE. vstop1 Eu.
     - (* EBinary *)
-      apply andb_true_iff in Hok. destruct Hok as [Hok Hy]. apply andb_true_iff in Hok. destruct Hok as [Ho Hx].
-      apply negb_true_iff in Ho.
-      rewrite (gen_binary _ _ _ _ _ Ho) in *. pcode_split.
-      codeof e1 ltac:(fun Hc => pose proof (IHE stk ρ e1 s fid C fv K pc σ I brk cont Hx Hwf Hstk Hc) as IH1).
-      simpl eval.
-      destruct (eval p n stk ρ e1 s) as [[vx s1]| | |]; cbn [sim fst snd] in *; auto.
-      codeof e2 ltac:(fun Hc => pose proof (IHE stk ρ e2 s1 fid C fv K _ (vx :: σ) I brk cont Hy Hwf Hstk Hc) as IH2).
-      destruct (eval p n stk ρ e2 s1) as [[vy s2]| | |]; cbn [sim fst snd] in *; auto;
-        try (hstar IH1; hchain IH2).
-      destruct (binary o vx vy (rw s2)) as [[r w]| |t] eqn:Eb; simpl.
-      + chain IH1. chain IH2. vstep1 Eb. fin.
-      + hstar IH1. hstar IH2. vstop1 Eb.
-      + hstar IH1. hstar IH2. vstop1 Eb.
+      apply andb_true_iff in Hok. destruct Hok as [Hx Hy].
+      destruct (binop_eqb o NotIn) eqn:Ho.
+      + assert (o = NotIn) by (destruct o; try discriminate; reflexivity). subst o.
+        rewrite gen_notin in *. pcode_split.
+        codeof e1 ltac:(fun Hc => pose proof (IHE stk ρ e1 s fid C fv K pc σ I brk cont Hx Hwf Hstk Hc) as IH1).
+        simpl eval.
+        destruct (eval p n stk ρ e1 s) as [[vx s1]| | |]; cbn [sim fst snd] in *; auto.
+        codeof e2 ltac:(fun Hc => pose proof (IHE stk ρ e2 s1 fid C fv K _ (vx :: σ) I brk cont Hy Hwf Hstk Hc) as IH2).
+        destruct (eval p n stk ρ e2 s1) as [[vy s2]| | |]; cbn [sim fst snd] in *; auto;
+          try (hstar IH1; hchain IH2).
+        rewrite binary_notin.
+        destruct (binary In vx vy (rw s2)) as [[r w]| |t] eqn:Eb; simpl.
+        * chain IH1. chain IH2. vstep1 Eb. vstep. fin.
+        * hstar IH1. hstar IH2. vstop1 Eb.
+        * hstar IH1. hstar IH2. vstop1 Eb.
+      + rewrite (gen_binary _ _ _ _ _ Ho) in *. pcode_split.
+        codeof e1 ltac:(fun Hc => pose proof (IHE stk ρ e1 s fid C fv K pc σ I brk cont Hx Hwf Hstk Hc) as IH1).
+        simpl eval.
+        destruct (eval p n stk ρ e1 s) as [[vx s1]| | |]; cbn [sim fst snd] in *; auto.
+        codeof e2 ltac:(fun Hc => pose proof (IHE stk ρ e2 s1 fid C fv K _ (vx :: σ) I brk cont Hy Hwf Hstk Hc) as IH2).
+        destruct (eval p n stk ρ e2 s1) as [[vy s2]| | |]; cbn [sim fst snd] in *; auto;
+          try (hstar IH1; hchain IH2).
+        destruct (binary o vx vy (rw s2)) as [[r w]| |t] eqn:Eb; simpl.
+        * chain IH1. chain IH2. vstep1 Eb. fin.
+        * hstar IH1. hstar IH2. vstop1 Eb.
+        * hstar IH1. hstar IH2. vstop1 Eb.
     - (* EAnd *)
       apply andb_true_iff in Hok. destruct Hok as [Hx Hy].
       rewrite gen_and in *. pcode_split.
@@ -326,6 +427,18 @@ Section Expr.
       { rewrite <- (evals_length _ _ _ _ _ _ _ Ev). apply popn_rev. }
       destruct (alloc_list vs (rw s1)) as [v w'] eqn:Ea. cbn [sim fst snd].
       chain IHl. vstep2 Hpop Ea. fin.
+    - (* EDict *)
+      rewrite gen_dict in *. pcode_split.
+      simpl eval.
+      destruct (alloc_dict [] (rw s)) as [d w] eqn:Ea.
+      match goal with Hc : pcode_at C ?q (flat_map _ kvs) _ _ |- _ =>
+        pose proof (IHN stk ρ d kvs (with_w s w) fid C fv K q σ I brk cont Hok Hwf Hstk Hc) as IH1 end.
+      assert (Hpre : star cp fn (S1 fid C fv K pc σ ρ I s) (S1 fid C fv K (S pc) (d :: σ) ρ I (with_w s w))).
+      { vstep1 Ea. fin. }
+      destruct (eval_entries p n stk ρ d kvs (with_w s w)) as [s1| | |]; cbn [sim fst snd] in *; auto.
+      + chain Hpre. chain IH1. fin.
+      + hstar Hpre. hchain IH1.
+      + hstar Hpre. hchain IH1.
     - (* EIndex *)
       apply andb_true_iff in Hok. destruct Hok as [Hx Hy].
       rewrite gen_index in *. pcode_split.
@@ -349,25 +462,58 @@ Section Expr.
       + hstar IH1. vstop1 Eb.
       + hstar IH1. vstop1 Eb.
     - (* ECall *)
-      apply andb_true_iff in Hok. destruct Hok as [Hf Hargs].
+      apply andb_true_iff in Hok. destruct Hok as [Hok Hshape]. apply andb_true_iff in Hok. destruct Hok as [Hf Hargs].
       change (ok_args args = true) in Hargs.
       rewrite (gen_call _ e args p0 Hargs) in *. pcode_split.
       codeof e ltac:(fun Hc => pose proof (IHE stk ρ e s fid C fv K pc σ I brk cont Hf Hwf Hstk Hc) as IH1).
       simpl eval.
       destruct (eval p n stk ρ e s) as [[vf s1]| | |]; cbn [sim fst snd] in *; auto.
-      match goal with Hcc : pcode_at _ _ (flat_map _ (pos_args args)) _ _ |- _ =>
-        pose proof (IHA stk ρ args [] s1 fid C fv K _ (vf :: σ) I brk cont Hargs Hwf Hstk Hcc) as IHa end.
+      match goal with Hcc : pcode_at _ _ (flat_map _ args) _ _ |- _ =>
+        pose proof (IHA stk ρ args [] [] s1 fid C fv K _ (vf :: σ) I brk cont Hargs Hshape Hwf Hstk Hcc) as IHa end.
       destruct (eval_args p n stk ρ args [] [] None None s1) as [r| | |]; cbn [sim fst snd] in *; auto;
         try (hstar IH1; hchain IHa).
-      destruct IHa as [vs [s2 [-> [Hlen IHa]]]]. simpl.
-      rewrite app_nil_r.
+      destruct IHa as [vs [nm [s2 [-> [Hlen [Hlen2 IHa]]]]]]. simpl.
+      rewrite !app_nil_r.
       match goal with Hcc : nth_error C ?q = Some (CALL _ _ _ _) |- _ =>
-        rewrite <- Hlen in Hcc;
-        pose proof (IHCa stk vf vs p0 s2 fid C fv K q σ ρ I Hstk Hcc) as IHc end.
-      destruct (call p n stk vf vs [] p0 s2) as [[r s3]| | |]; cbn [sim fst snd] in *; auto.
+        rewrite <- Hlen, <- Hlen2 in Hcc;
+        pose proof (IHCa stk vf vs nm p0 s2 fid C fv K q σ ρ I Hstk Hcc) as IHc end.
+      destruct (call p n stk vf vs nm p0 s2) as [[r s3]| | |]; cbn [sim fst snd] in *; auto.
       + chain IH1. chain IHa. chain IHc. fin.
       + hstar IH1. hstar IHa. hchain IHc.
       + hstar IH1. hstar IHa. hchain IHc.
+    - (* ESlice *)
+      apply andb_true_iff in Hok. destruct Hok as [Hok Hst]. apply andb_true_iff in Hok. destruct Hok as [Hok Hhi].
+      apply andb_true_iff in Hok. destruct Hok as [Hx Hlo].
+      assert (Hopt : forall (oe : option expr) s0 pc0 σ0,
+                 match oe with Some e0 => ok_expr e0 = true | None => True end ->
+                 pcode_at C pc0 (gopt (map fst ρ) oe) brk cont ->
+                 sim p (match oe with Some e0 => eval p n stk ρ e0 s0 | None => Ok (VNone, s0) end)
+                     (S1 fid C fv K pc0 σ0 ρ I s0)
+                     (fun r => star cp fn (S1 fid C fv K pc0 σ0 ρ I s0)
+                                 (S1 fid C fv K (pc0 + length (gopt (map fst ρ) oe)) (fst r :: σ0) ρ I (snd r)))).
+      { intros [e0|] s0 pc0 σ0 Ho Hc; simpl in *.
+        - exact (IHE stk ρ e0 s0 fid C fv K pc0 σ0 I brk cont Ho Hwf Hstk Hc).
+        - pcode_split. vstep. fin. }
+      rewrite gen_slice in *. pcode_split.
+      codeof e ltac:(fun Hc => pose proof (IHE stk ρ e s fid C fv K pc σ I brk cont Hx Hwf Hstk Hc) as IH1).
+      simpl eval.
+      destruct (eval p n stk ρ e s) as [[vx s1]| | |]; cbn [sim fst snd] in *; auto.
+      match goal with Hc : pcode_at C ?q (gopt _ lo) _ _ |- _ =>
+        pose proof (Hopt lo s1 q (vx :: σ) ltac:(destruct lo; auto) Hc) as IH2 end.
+      destruct (match lo with Some e0 => eval p n stk ρ e0 s1 | None => Ok (VNone, s1) end) as [[vlo s2]| | |];
+        cbn [sim fst snd] in *; auto; try (hstar IH1; hchain IH2).
+      match goal with Hc : pcode_at C ?q (gopt _ hi) _ _ |- _ =>
+        pose proof (Hopt hi s2 q (vlo :: vx :: σ) ltac:(destruct hi; auto) Hc) as IH3 end.
+      destruct (match hi with Some e0 => eval p n stk ρ e0 s2 | None => Ok (VNone, s2) end) as [[vhi s3]| | |];
+        cbn [sim fst snd] in *; auto; try (hstar IH1; hstar IH2; hchain IH3).
+      match goal with Hc : pcode_at C ?q (gopt _ step) _ _ |- _ =>
+        pose proof (Hopt step s3 q (vhi :: vlo :: vx :: σ) ltac:(destruct step; auto) Hc) as IH4 end.
+      destruct (match step with Some e0 => eval p n stk ρ e0 s3 | None => Ok (VNone, s3) end) as [[vst s4]| | |];
+        cbn [sim fst snd] in *; auto; try (hstar IH1; hstar IH2; hstar IH3; hchain IH4).
+      destruct (slice_op vx vlo vhi vst (rw s4)) as [[r w]| |t] eqn:Eb; cbn [lift sim fst snd].
+      + chain IH1. chain IH2. chain IH3. chain IH4. vstep1 Eb. fin.
+      + hstar IH1. hstar IH2. hstar IH3. hstar IH4. vstop1 Eb.
+      + hstar IH1. hstar IH2. hstar IH3. hstar IH4. vstop1 Eb.
   Qed.
 
   Lemma cond_default : forall n, E p (S n) ->
@@ -402,9 +548,24 @@ Section Expr.
       destruct (eval p n stk ρ e s) as [[v s1]| | |]; cbn [sim fst snd] in *; auto.
       rewrite truth_bool. destruct (truth v (rw s1)); exact IH1.
     - (* EBinary *)
-      eapply (cond_default n HE); eauto.
-      apply andb_true_iff in Hok. destruct Hok as [Hok _]. apply andb_true_iff in Hok. destruct Hok as [Ho _].
-      apply negb_true_iff in Ho. destruct o; try reflexivity; discriminate.
+      destruct (binop_eqb o NotIn) eqn:Ho.
+      2: { eapply (cond_default n HE); eauto. destruct o; try reflexivity; discriminate. }
+      assert (o = NotIn) by (destruct o; try discriminate; reflexivity). subst o.
+      apply andb_true_iff in Hok. destruct Hok as [Hx Hy].
+      rewrite gc_notin in *. pcode_split.
+      codeof e1 ltac:(fun Hc => pose proof (IHE stk ρ e1 s fid C fv K pc σ I brk cont Hx Hwf Hstk Hc) as IH1).
+      simpl eval.
+      destruct (eval p n stk ρ e1 s) as [[vx s1]| | |]; cbn [sim fst snd] in *; auto.
+      codeof e2 ltac:(fun Hc => pose proof (IHE stk ρ e2 s1 fid C fv K _ (vx :: σ) I brk cont Hy Hwf Hstk Hc) as IH2).
+      destruct (eval p n stk ρ e2 s1) as [[vy s2]| | |]; cbn [sim fst snd] in *; auto;
+        try (hstar IH1; hchain IH2).
+      rewrite binary_notin.
+      destruct (binary In vx vy (rw s2)) as [[r w]| |t0] eqn:Eb; cbn [lift sim fst snd with_w rw].
+      + rewrite truth_bool. destruct (truth r w) eqn:Et; cbn [negb].
+        * chain IH1. chain IH2. vstep1 Eb. vstep1 Et. fin.
+        * chain IH1. chain IH2. vstep1 Eb. vstep1 Et. vstep. fin.
+      + hstar IH1. hstar IH2. vstop1 Eb.
+      + hstar IH1. hstar IH2. vstop1 Eb.
     - (* EAnd *)
       apply andb_true_iff in Hok. destruct Hok as [Hx Hy].
       rewrite gc_and in *. pcode_split.
@@ -458,25 +619,89 @@ Section Expr.
       + hstar IH1. hchain IH2.
   Qed.
 
+  Lemma Df_step : forall n, E p n -> Df p n -> Df p (S n).
+  Proof.
+    intros n IHE IHD.
+    unfold Df; intros stk ρ ps seen s fid C fv K pc σ I brk cont Hok Hwf Hstk Hcode.
+    destruct ps as [|q ps]; simpl.
+    - split; auto. fin.
+    - simpl in Hok. apply andb_true_iff in Hok. destruct Hok as [Hq Hps].
+      destruct q; simpl in Hcode |- *.
+      + (* plain *)
+        destruct (gen_defaults p (map fst ρ) ps seen) as [c k] eqn:Eg.
+        pose proof (IHD stk ρ ps seen s fid C fv K) as IH. rewrite Eg in IH. cbn [fst snd] in IH.
+        destruct seen; cbn [fst snd] in *.
+        * pcode_split.
+          match goal with Hc : pcode_at C ?q c _ _ |- _ => specialize (IH q (VMandatory :: σ) I brk cont Hps Hwf Hstk Hc) end.
+          destruct (eval_defaults p n stk ρ ps true s) as [[vs s1]| | |]; cbn [sim fst snd] in *; auto.
+          -- destruct IH as [Hl IH]. split; [simpl; congruence|].
+             vstep. chain IH. norm_state. apply star_eq. f_equal. f_equal. f_equal.
+             ++ lia.
+             ++ simpl. rewrite <- app_assoc. reflexivity.
+          -- eapply halts_star; [ vstep; apply star_refl | ]. hchain IH.
+          -- eapply halts_star; [ vstep; apply star_refl | ]. hchain IH.
+        * specialize (IH pc σ I brk cont Hps Hwf Hstk Hcode).
+          destruct (eval_defaults p n stk ρ ps false s) as [[vs s1]| | |]; cbn [sim fst snd] in *; auto.
+      + (* default *)
+        destruct (gen_defaults p (map fst ρ) ps seen) as [c k] eqn:Eg. cbn [fst snd] in *. pcode_split.
+        codeof e ltac:(fun Hc => pose proof (IHE stk ρ e s fid C fv K pc σ I brk cont Hq Hwf Hstk Hc) as IH1).
+        destruct (eval p n stk ρ e s) as [[v s1]| | |]; cbn [sim fst snd] in *; auto.
+        pose proof (IHD stk ρ ps seen s1 fid C fv K) as IH. rewrite Eg in IH. cbn [fst snd] in IH.
+        match goal with Hc : pcode_at C ?q c _ _ |- _ => specialize (IH q (v :: σ) I brk cont Hps Hwf Hstk Hc) end.
+        destruct (eval_defaults p n stk ρ ps seen s1) as [[vs s2]| | |]; cbn [sim fst snd] in *; auto.
+        * destruct IH as [Hl IH]. split; [simpl; congruence|].
+          chain IH1. chain IH. norm_state. apply star_eq. f_equal. f_equal. f_equal.
+          -- rewrite app_length. lia.
+          -- simpl. rewrite <- app_assoc. reflexivity.
+        * hstar IH1. hchain IH.
+        * hstar IH1. hchain IH.
+      + (* star *)
+        exact (IHD stk ρ ps true s fid C fv K pc σ I brk cont Hps Hwf Hstk Hcode).
+      + (* starstar *)
+        exact (IHD stk ρ ps true s fid C fv K pc σ I brk cont Hps Hwf Hstk Hcode).
+  Qed.
+
   Lemma Ar_step : forall n, E p n -> Ar p n -> Ar p (S n).
   Proof.
     intros n IHE IHA.
-    unfold Ar; intros stk ρ args acc s fid C fv K pc σ I brk cont Hok Hwf Hstk Hcode.
-    destruct args as [|a args]; simpl.
-    - exists [], s. rewrite app_nil_r. repeat split; auto. fin.
+    unfold Ar; intros stk ρ args acc nacc s fid C fv K pc σ I brk cont Hok Hshape Hwf Hstk Hcode.
+    destruct args as [|a args]; simpl eval_args.
+    - cbn [sim]. exists [], [], s. rewrite !app_nil_r. repeat split; auto. fin.
     - simpl in Hok. apply andb_true_iff in Hok. destruct Hok as [He Hes].
-      destruct a; try discriminate. simpl in Hcode. pcode_split.
-      codeof e ltac:(fun Hc => pose proof (IHE stk ρ e s fid C fv K pc σ I brk cont He Hwf Hstk Hc) as IH1).
-      destruct (eval p n stk ρ e s) as [[v s1]| | |]; cbn [sim fst snd] in *; auto.
-      match goal with Hcc : pcode_at _ _ (flat_map _ (pos_args args)) _ _ |- _ =>
-        pose proof (IHA stk ρ args (acc ++ [v]) s1 fid C fv K _ (v :: σ) I brk cont Hes Hwf Hstk Hcc) as IH2 end.
-      destruct (eval_args p n stk ρ args (acc ++ [v]) [] None None s1) as [r| | |]; cbn [sim fst snd] in *; auto.
-      + destruct IH2 as [vs [s2 [-> [Hlen IH2]]]].
-        exists (v :: vs), s2. rewrite <- app_assoc. simpl. repeat split; auto.
-        chain IH1. chain IH2. norm_state. apply star_eq. f_equal. f_equal. f_equal.
-        * rewrite app_length. lia.
-        * simpl. rewrite <- app_assoc. reflexivity.
-      + hstar IH1. hchain IH2.
-      + hstar IH1. hchain IH2.
+      destruct a; try discriminate; simpl in Hcode, Hshape; pcode_split.
+      + (* positional *)
+        codeof e ltac:(fun Hc => pose proof (IHE stk ρ e s fid C fv K pc σ I brk cont He Hwf Hstk Hc) as IH1).
+        destruct (eval p n stk ρ e s) as [[v s1]| | |]; cbn [sim fst snd] in *; auto.
+        match goal with Hcc : pcode_at _ _ (flat_map _ args) _ _ |- _ =>
+          pose proof (IHA stk ρ args (acc ++ [v]) nacc s1 fid C fv K _ (v :: σ) I brk cont Hes Hshape Hwf Hstk Hcc) as IH2 end.
+        destruct (eval_args p n stk ρ args (acc ++ [v]) nacc None None s1) as [r| | |]; cbn [sim fst snd] in *; auto.
+        * destruct IH2 as [vs [nm [s2 [-> [Hl1 [Hl2 IH2]]]]]].
+          exists (v :: vs), nm, s2. rewrite <- app_assoc. simpl. repeat split; auto.
+          -- unfold count_pos in *. simpl. lia.
+          -- chain IH1. chain IH2. norm_state. apply star_eq. f_equal. f_equal. f_equal.
+             ++ rewrite app_length. lia.
+             ++ simpl. rewrite <- !app_assoc. reflexivity.
+        * hstar IH1. hchain IH2.
+        * hstar IH1. hchain IH2.
+      + (* named *)
+        codeof e ltac:(fun Hc => pose proof (IHE stk ρ e s fid C fv K _ (VStr name :: σ) I brk cont He Hwf Hstk Hc) as IH1).
+        assert (Hpre : star cp fn (S1 fid C fv K pc σ ρ I s) (S1 fid C fv K (S pc) (VStr name :: σ) ρ I s)).
+        { vstep. fin. }
+        destruct (eval p n stk ρ e s) as [[v s1]| | |]; cbn [sim fst snd] in *; auto;
+          try (hstar Hpre; hchain IH1).
+        match goal with Hcc : pcode_at _ _ (flat_map _ args) _ _ |- _ =>
+          pose proof (IHA stk ρ args acc (nacc ++ [(name, v)]) s1 fid C fv K _ (v :: VStr name :: σ) I brk cont Hes
+                          (named_only_shape _ Hshape) Hwf Hstk Hcc) as IH2 end.
+        destruct (eval_args p n stk ρ args acc (nacc ++ [(name, v)]) None None s1) as [r| | |]; cbn [sim fst snd] in *; auto.
+        * destruct IH2 as [vs [nm [s2 [-> [Hl1 [Hl2 IH2]]]]]].
+          rewrite (named_only_no_pos _ Hshape) in Hl1. destruct vs; [|discriminate].
+          exists [], ((name, v) :: nm), s2. rewrite <- app_assoc. simpl. repeat split; auto.
+          -- unfold count_pos. simpl. symmetry. apply (named_only_no_pos _ Hshape).
+          -- unfold count_named in *. simpl. lia.
+          -- chain Hpre. chain IH1. chain IH2. norm_state. apply star_eq. f_equal. f_equal. f_equal.
+             ++ simpl. rewrite app_length. simpl. lia.
+             ++ simpl. rewrite <- !app_assoc. reflexivity.
+        * hstar Hpre. hstar IH1. hchain IH2.
+        * hstar Hpre. hstar IH1. hchain IH2.
   Qed.
 End Expr.
